@@ -8,6 +8,8 @@ Monitor: the list of names yielded by each step (the package's public stepping
 interface).  Oracles: per-step deterministic predicates, and for the distributional
 clause pooled free-slot counts per (table, due-set) against the normalised weights
 (binomial z with re-measurement), plus independence of consecutive free picks.
+Live re-tuning shards re-assign weights and intervals through the move table's
+documented attributes between two run calls and judge the second run against the new table.
 """
 from __future__ import annotations
 
